@@ -141,6 +141,17 @@ fn infer_call_target_type(
 }
 
 fn has_non_callable_member(db: &DbIndex, typ: &LuaType) -> bool {
+    has_non_callable_member_with_depth(db, typ, 0)
+}
+
+/// Recursive aliases (`---@alias A B|string`, `---@alias B A|number`) lead the walk over union members
+/// back to the same alias; past this depth the member is not reported.
+const MAX_NON_CALLABLE_DEPTH: u32 = 10;
+
+fn has_non_callable_member_with_depth(db: &DbIndex, typ: &LuaType, depth: u32) -> bool {
+    if depth >= MAX_NON_CALLABLE_DEPTH {
+        return false;
+    }
     let typ = get_real_type(db, typ).unwrap_or(typ);
     if typ.is_function() || typ.is_call() {
         return false;
@@ -150,24 +161,24 @@ fn has_non_callable_member(db: &DbIndex, typ: &LuaType) -> bool {
         LuaType::Any | LuaType::Unknown | LuaType::SelfInfer | LuaType::Global | LuaType::Nil => {
             false
         }
-        LuaType::TplRef(tpl) => tpl
-            .get_constraint()
-            .is_some_and(|constraint| has_non_callable_member(db, constraint)),
-        LuaType::StrTplRef(str_tpl) => str_tpl
-            .get_constraint()
-            .is_some_and(|constraint| has_non_callable_member(db, constraint)),
+        LuaType::TplRef(tpl) => tpl.get_constraint().is_some_and(|constraint| {
+            has_non_callable_member_with_depth(db, constraint, depth + 1)
+        }),
+        LuaType::StrTplRef(str_tpl) => str_tpl.get_constraint().is_some_and(|constraint| {
+            has_non_callable_member_with_depth(db, constraint, depth + 1)
+        }),
         LuaType::Union(union) => union
             .into_vec()
             .iter()
-            .any(|t| has_non_callable_member(db, t)),
+            .any(|t| has_non_callable_member_with_depth(db, t, depth + 1)),
         LuaType::Intersection(intersection) => intersection
             .get_types()
             .iter()
-            .all(|t| has_non_callable_member(db, t)),
+            .all(|t| has_non_callable_member_with_depth(db, t, depth + 1)),
         LuaType::MultiLineUnion(union) => union
             .get_unions()
             .iter()
-            .any(|(t, _)| has_non_callable_member(db, t)),
+            .any(|(t, _)| has_non_callable_member_with_depth(db, t, depth + 1)),
         _ => true,
     }
 }
